@@ -7,6 +7,7 @@ ledger of the server is validated against these definitions by the server-level 
 import FpVerif.Model.Flow
 import FpVerif.Model.H2Tx
 import FpVerif.Model.H2Rx
+import FpVerif.Lemmas.H2Rx
 set_option linter.unusedSimpArgs false
 namespace Fp.C12
 open Fp Fp.Flow Fp.Gen.Flow
@@ -279,5 +280,808 @@ the rest waits; a SETTINGS change that re-opens the window releases it -/
 example : (H2Tx.run { streamFlow := 20000, initialWindow := 20000 } [.body 40000, .bodyEOF, .setting 4 65535]).map
     (fun os => os.map fun o => match o with | .data n e => (n, e) | _ => (0, false)) =
     [[(16384, false), (3616, false)], [], [(12768, false), (7232, false), (0, true)]] := by decide
+
+/-! ### the server's receive side (server.go: processData / noteBodyRead / closeStream / sendWindowUpdate), model `H2Rx` -/
+
+open H2Rx in
+/-- ledger invariant of a connection: the inflow counters are sane, body ids are unique, and the credit given or
+pending plus the bytes still held for open streams covers the whole initial window: nothing is lost -/
+structure RxInv (c : H2Rx.RConn) : Prop where
+  inflow : InflowInv c.inflow
+  uniq : H2Rx.BUniq c
+  ledger : H2Rx.cred c + H2Rx.held c ≥ 1048576
+
+open H2Rx in
+theorem refundOut_no_panic (sid : Nat) (inc : Int) : Rx.panic ∉ refundOut sid inc := by
+  unfold refundOut; split <;> simp
+
+open H2Rx in
+theorem connRefund_spec (c : RConn) (n : Nat) (hi : InflowInv c.inflow) (hnp : Rx.panic ∉ (connRefund c n).2) :
+    InflowInv (connRefund c n).1.inflow ∧ cred (connRefund c n).1 = cred c + n ∧
+    (connRefund c n).1.streams = c.streams ∧ (connRefund c n).1.bodies = c.bodies ∧ (connRefund c n).1.dead = c.dead := by
+  unfold connRefund at hnp ⊢
+  cases hadd : c.inflow.add n with
+  | panic => rw [hadd] at hnp; simp at hnp
+  | ok v =>
+    obtain ⟨f, inc⟩ := v
+    have hw : c.inflow.unsent + (n : Int) + c.inflow.avail ≤ 2147483647 := by
+      by_cases hcon : c.inflow.unsent + (n : Int) + c.inflow.avail ≤ 2147483647
+      · exact hcon
+      · have := (inflow_add_panics_iff c.inflow n).mpr (Or.inr (by omega))
+        rw [hadd] at this; cases this
+    obtain ⟨f', c', he, hi', h1, h2, _⟩ := inflow_add_returns c.inflow n hi (by omega) hw
+    rw [hadd] at he
+    cases he
+    have hcred : f.avail + f.unsent = c.inflow.avail + c.inflow.unsent + n := by omega
+    exact ⟨hi', by unfold cred; simpa using hcred, rfl, rfl, rfl⟩
+
+open H2Rx in
+/-- `c'` is at least as well off as `c`: counters sane, ids unique, and credit + held bytes did not shrink -/
+structure Keeps (c c' : RConn) : Prop where
+  inflow : InflowInv c'.inflow
+  uniq : BUniq c'
+  ledger : cred c' + held c' ≥ cred c + held c
+
+open H2Rx in
+theorem Keeps.trans {a b c : RConn} (h1 : Keeps a b) (h2 : Keeps b c) : Keeps a c :=
+  ⟨h2.inflow, h2.uniq, by have := h1.ledger; have := h2.ledger; omega⟩
+
+open H2Rx in
+theorem Keeps.refl (c : RConn) (hi : InflowInv c.inflow) (hu : BUniq c) : Keeps c c := ⟨hi, hu, by omega⟩
+
+open H2Rx in
+theorem bodies_ids_setB (c : RConn) (b : Body) : (setB c b).bodies.map (·.id) = c.bodies.map (·.id) := by
+  unfold setB
+  simp only [List.map_map]
+  apply List.map_congr_left
+  intro x _
+  simp only [Function.comp]
+  split
+  · rename_i h; exact (beq_iff_eq.mp h).symm
+  · rfl
+
+open H2Rx in
+theorem streamRefund_spec (c : RConn) (s : RStream) (n : Nat) :
+    (streamRefund c s n).1.inflow = c.inflow ∧ (streamRefund c s n).1.bodies = c.bodies ∧
+    held (streamRefund c s n).1 = held c ∧ (∀ sid, present (streamRefund c s n).1 sid = present c sid) := by
+  unfold streamRefund
+  split
+  · exact ⟨rfl, rfl, held_setS c _, present_setS c _⟩
+  · exact ⟨rfl, rfl, rfl, fun _ => rfl⟩
+
+open H2Rx in
+theorem keeps_of_same (c c' : RConn) (hi : InflowInv c.inflow) (hu : BUniq c) (h1 : c'.inflow = c.inflow)
+    (h2 : c'.bodies = c.bodies) (h3 : held c' = held c) : Keeps c c' :=
+  ⟨by rw [h1]; exact hi, by unfold BUniq; rw [h2]; exact hu, by unfold cred; rw [h1, h3]; omega⟩
+
+open H2Rx in
+theorem findB_bufOf (c : RConn) (sid : Nat) (b : Body) (h : findB c sid = some b) : bufOf c.bodies sid = b.buffered := by
+  unfold bufOf; unfold findB at h; rw [h]
+
+open H2Rx in
+theorem findB_id (c : RConn) (sid : Nat) (b : Body) (h : findB c sid = some b) : b.id = sid := by
+  unfold findB at h
+  have := List.find?_some h
+  simpa using this
+
+open H2Rx in
+/-- `closeStream`: what was held for the stream goes back to the connection window -/
+theorem closeStream_keeps (c : RConn) (sid : Nat) (hi : InflowInv c.inflow) (hu : BUniq c)
+    (hnp : Rx.panic ∉ (closeStream c sid).2) : Keeps c (closeStream c sid).1 := by
+  unfold closeStream at hnp ⊢
+  by_cases hp : (findS c sid).isNone = true
+  · simp only [hp, if_true]; exact Keeps.refl c hi hu
+  · simp only [hp, Bool.false_eq_true, if_false] at hnp ⊢
+    have hpres : present c sid = true := by
+      unfold present; cases h : findS c sid <;> simp [h] at hp ⊢
+    have hfB : findB (dropS c sid) sid = findB c sid := rfl
+    have hud : BUniq (dropS c sid) := hu
+    have hheld := held_dropS c sid hu
+    rw [hpres] at hheld
+    simp only [if_true] at hheld
+    cases hb : findB (dropS c sid) sid with
+    | none =>
+      rw [hb] at hnp
+      simp only
+      have : bufOf c.bodies sid = 0 := by
+        unfold bufOf; rw [hfB] at hb; unfold findB at hb; rw [hb]
+      exact ⟨hi, hud, by unfold cred at *; rw [hheld, this]; show c.inflow.avail + c.inflow.unsent + (held c - 0) ≥ _; omega⟩
+    | some b =>
+      rw [hb] at hnp
+      simp only at hnp ⊢
+      have hnp' : Rx.panic ∉ (connRefund (dropS c sid) b.buffered).2 := hnp
+      obtain ⟨r1, r2, r3, r4, r5⟩ := connRefund_spec (dropS c sid) b.buffered hi hnp'
+      have hbuf : bufOf c.bodies sid = b.buffered := findB_bufOf c sid b (by rw [← hfB]; exact hb)
+      have hbid : b.id = sid := findB_id _ sid b hb
+      -- after the refund the body is marked ended (same buffered count, stream no longer present)
+      have hfB2 : findB (connRefund (dropS c sid) b.buffered).1 ({ b with ended := true } : Body).id = some b := by
+        show findB (connRefund (dropS c sid) b.buffered).1 b.id = some b
+        unfold findB; rw [r4, hbid]; exact hb
+      have hu2 : BUniq (connRefund (dropS c sid) b.buffered).1 := by unfold BUniq; rw [r4]; exact hud
+      have hheld2 := held_setB (connRefund (dropS c sid) b.buffered).1 b { b with ended := true } hu2 hfB2
+      have hsame : held (connRefund (dropS c sid) b.buffered).1 = held (dropS c sid) := by
+        unfold held
+        rw [r4]
+        apply heldOf_congr
+        intro s; unfold present findS; rw [r3]
+      refine ⟨?_, ?_, ?_⟩
+      · exact r1
+      · unfold BUniq; rw [bodies_ids_setB]; exact hu2
+      · have e1 : cred (setB (connRefund (dropS c sid) b.buffered).1 { b with ended := true }) =
+            cred (connRefund (dropS c sid) b.buffered).1 := rfl
+        have e3 : cred (dropS c sid) = cred c := rfl
+        have e8 : (if present (connRefund (dropS c sid) b.buffered).1 ({ b with ended := true } : Body).id = true
+            then ((({ b with ended := true } : Body).buffered : Nat) : Int) - (b.buffered : Int) else 0) = 0 := by
+          split
+          · show ((b.buffered : Nat) : Int) - b.buffered = 0; omega
+          · rfl
+        rw [e8] at hheld2
+        show cred (setB (connRefund (dropS c sid) b.buffered).1 { b with ended := true }) +
+          held (setB (connRefund (dropS c sid) b.buffered).1 { b with ended := true }) ≥ cred c + held c
+        rw [hheld2, e1, r2, hsame, hheld, hbuf, e3]
+        omega
+
+open H2Rx in
+theorem closeStream_no_new (c : RConn) (sid : Nat) : (closeStream c sid).1.bodies.map (·.id) = c.bodies.map (·.id) := by
+  unfold closeStream
+  split
+  · rfl
+  · simp only
+    cases hb : findB (dropS c sid) sid with
+    | none => rfl
+    | some b =>
+      simp only
+      rw [bodies_ids_setB]
+      unfold connRefund
+      split <;> rfl
+
+open H2Rx in
+theorem streamErr_keeps (c : RConn) (sid code : Nat) (hi : InflowInv c.inflow) (hu : BUniq c)
+    (hnp : Rx.panic ∉ (streamErr c sid code).2) : Keeps c (streamErr c sid code).1 := by
+  unfold streamErr at hnp ⊢
+  simp only at hnp ⊢
+  apply closeStream_keeps c sid hi hu
+  intro h
+  exact hnp (by simp [h])
+
+theorem take_unsent (f : Inflow) (n : Int) : (f.take n).1.unsent = f.unsent := by
+  unfold Inflow.take; split <;> rfl
+
+theorem takeInflows_spec (f1 f2 : Inflow) (n : Int) (h1 : InflowInv f1) (hn : 0 ≤ n ∧ n ≤ 4294967295) :
+    ((takeInflows f1 f2 n).2.2 = true → InflowInv (takeInflows f1 f2 n).1 ∧
+        (takeInflows f1 f2 n).1.avail = f1.avail - n ∧ (takeInflows f1 f2 n).1.unsent = f1.unsent) := by
+  obtain ⟨a1, a2, a3, a4⟩ := h1
+  unfold takeInflows toU32 wrap32 InflowInv
+  by_cases h : n > f1.avail % 4294967296 ∨ n > f2.avail % 4294967296
+  · simp [h]
+  · simp only [h, if_false]
+    intro _
+    refine ⟨⟨?_, ?_, ?_, ?_⟩, ?_, ?_⟩ <;> (try simp) <;> omega
+
+open H2Rx in
+/-- take L from the connection window and give L back at once: the ledger is where it was -/
+theorem take_refund_keeps (c : RConn) (L : Nat) (hi : InflowInv c.inflow) (hu : BUniq c) (hL : (L : Int) ≤ 4294967295)
+    (hok : (c.inflow.take L).2 = true)
+    (hnp : Rx.panic ∉ (connRefund { c with inflow := (c.inflow.take L).1 } L).2) :
+    Keeps c (connRefund { c with inflow := (c.inflow.take L).1 } L).1 ∧
+    (connRefund { c with inflow := (c.inflow.take L).1 } L).1.streams = c.streams ∧
+    (connRefund { c with inflow := (c.inflow.take L).1 } L).1.bodies = c.bodies := by
+  obtain ⟨t1, t2, t3, _⟩ := inflow_take_enforces c.inflow L hi ⟨by omega, hL⟩
+  have hav := t3 hok
+  have hun := take_unsent c.inflow L
+  obtain ⟨r1, r2, r3, r4, r5⟩ := connRefund_spec { c with inflow := (c.inflow.take L).1 } L t2 hnp
+  refine ⟨⟨r1, by unfold BUniq; rw [r4]; exact hu, ?_⟩, r3, r4⟩
+  have hh : held (connRefund { c with inflow := (c.inflow.take L).1 } L).1 = held c := by
+    unfold held
+    rw [r4]
+    apply heldOf_congr
+    intro s; unfold present findS; rw [r3]
+  rw [r2, hh]
+  unfold cred
+  show (c.inflow.take L).1.avail + (c.inflow.take L).1.unsent + L + held c ≥ _
+  rw [hav, hun]; omega
+
+open H2Rx in
+theorem chargeReturn_keeps (c : RConn) (sid L : Nat) (after : RConn → RConn × List Rx)
+    (hi : InflowInv c.inflow) (hu : BUniq c) (hL : (L : Int) ≤ 4294967295)
+    (hafter : ∀ x, InflowInv x.inflow → BUniq x → Rx.panic ∉ (after x).2 → Keeps x (after x).1)
+    (hnp : Rx.panic ∉ (chargeReturn c sid L after).2) : Keeps c (chargeReturn c sid L after).1 := by
+  unfold chargeReturn at hnp ⊢
+  by_cases hok : (c.inflow.take L).2 = true
+  · simp only [hok, Bool.not_true, Bool.false_eq_true, if_false] at hnp ⊢
+    have hnp1 : Rx.panic ∉ (connRefund { c with inflow := (c.inflow.take L).1 } L).2 := fun h => hnp (by simp [h])
+    obtain ⟨k1, _, _⟩ := take_refund_keeps c L hi hu hL hok hnp1
+    have hnp2 : Rx.panic ∉ (after (connRefund { c with inflow := (c.inflow.take L).1 } L).1).2 := fun h => hnp (by simp [h])
+    exact k1.trans (hafter _ k1.inflow k1.uniq hnp2)
+  · have : (c.inflow.take L).2 = false := by simpa using hok
+    simp only [this, Bool.not_false, if_true] at hnp ⊢
+    exact streamErr_keeps c sid _ hi hu hnp
+
+open H2Rx in
+theorem present_of_findS {c : RConn} {sid : Nat} {s : RStream} (h : findS c sid = some s) : present c sid = true := by
+  unfold present; rw [h]; rfl
+
+open H2Rx in
+theorem findS_id {c : RConn} {sid : Nat} {s : RStream} (h : findS c sid = some s) : s.id = sid := by
+  unfold findS at h
+  have := List.find?_some h
+  simpa using this
+
+open H2Rx in
+/-- buffering `len` more bytes for a stream that is present raises `held` by `len` (when the body exists) -/
+theorem buffer_spec (c : RConn) (sid len : Nat) (hu : BUniq c) (hp : present c sid = true) :
+    BUniq (buffer c sid len) ∧ (buffer c sid len).inflow = c.inflow ∧ (buffer c sid len).streams = c.streams ∧
+    held (buffer c sid len) ≥ held c ∧
+    ((findB c sid).isSome = true → held (buffer c sid len) = held c + len) := by
+  unfold buffer
+  cases hb : findB c sid with
+  | none => exact ⟨hu, rfl, rfl, Int.le_refl _, by intro h; cases h⟩
+  | some b =>
+    simp only
+    have hbid := findB_id c sid b hb
+    have hf : findB c ({ b with buffered := b.buffered + len } : Body).id = some b := by
+      show findB c b.id = some b; rw [hbid]; exact hb
+    have hh := held_setB c b { b with buffered := b.buffered + len } hu hf
+    have hp' : present c ({ b with buffered := b.buffered + len } : Body).id = true := by
+      show present c b.id = true; rw [hbid]; exact hp
+    rw [hp'] at hh
+    simp only [if_true] at hh
+    refine ⟨by unfold BUniq; rw [bodies_ids_setB]; exact hu, rfl, rfl, ?_, ?_⟩
+    · rw [hh]; push_cast; omega
+    · intro _; rw [hh]; push_cast; omega
+
+open H2Rx in
+theorem padRefund_spec (c : RConn) (sid n : Nat) (hi : InflowInv c.inflow) (hu : BUniq c)
+    (hnp : Rx.panic ∉ (padRefund c sid n).2) :
+    InflowInv (padRefund c sid n).1.inflow ∧ BUniq (padRefund c sid n).1 ∧
+    cred (padRefund c sid n).1 = cred c + n ∧ held (padRefund c sid n).1 = held c := by
+  unfold padRefund at hnp ⊢
+  simp only at hnp ⊢
+  have hnp1 : Rx.panic ∉ (connRefund c n).2 := fun h => hnp (by simp [h])
+  obtain ⟨r1, r2, r3, r4, _⟩ := connRefund_spec c n hi hnp1
+  have hh1 : held (connRefund c n).1 = held c := by
+    unfold held; rw [r4]; apply heldOf_congr; intro s; unfold present findS; rw [r3]
+  have hu1 : BUniq (connRefund c n).1 := by unfold BUniq; rw [r4]; exact hu
+  cases hs : findS (connRefund c n).1 sid with
+  | none => exact ⟨r1, hu1, r2, hh1⟩
+  | some st =>
+    simp only
+    obtain ⟨q1, q2, q3, _⟩ := streamRefund_spec (connRefund c n).1 st n
+    refine ⟨by rw [q1]; exact r1, by unfold BUniq; rw [q2]; exact hu1, ?_, by rw [q3, hh1]⟩
+    unfold cred; rw [q1]; exact r2
+
+open H2Rx in
+theorem acceptData_keeps (c : RConn) (s : RStream) (sid len L : Nat) (hi : InflowInv c.inflow) (hu : BUniq c)
+    (hfs : findS c sid = some s) (hfb : (findB c sid).isSome = true) (hL : (L : Int) ≤ 4294967295) (hlen : len ≤ L)
+    (c' : RConn) (r : List Rx) (hacc : acceptData c s sid len L = some (c', r)) (hnp : Rx.panic ∉ r) : Keeps c c' := by
+  unfold acceptData at hacc
+  by_cases hL0 : L > 0
+  · simp only [hL0, if_true] at hacc
+    by_cases hok : (takeInflows c.inflow s.inflow L).2.2 = true
+    · simp only [hok, Bool.not_true, Bool.false_eq_true, if_false, Option.some.injEq] at hacc
+      obtain ⟨t1, t2, t3⟩ := takeInflows_spec c.inflow s.inflow L hi ⟨by omega, hL⟩ hok
+      -- state after charging both windows
+      generalize hc1 : setS { c with inflow := (takeInflows c.inflow s.inflow L).1 }
+        { s with inflow := (takeInflows c.inflow s.inflow L).2.1, bodyBytes := s.bodyBytes + len } = c1 at hacc
+      have hsid := findS_id hfs
+      have c1_in : c1.inflow = (takeInflows c.inflow s.inflow L).1 := by rw [← hc1]; rfl
+      have c1_bod : c1.bodies = c.bodies := by rw [← hc1]; rfl
+      have c1_pres : ∀ x, present c1 x = present c x := by
+        intro x; rw [← hc1]; rw [present_setS]; rfl
+      have c1_held : held c1 = held c := by
+        rw [← hc1, held_setS]; exact held_inflow c _
+      have hu1 : BUniq c1 := by unfold BUniq; rw [c1_bod]; exact hu
+      have hp1 : present c1 sid = true := by rw [c1_pres]; exact present_of_findS hfs
+      have hfb1 : (findB c1 sid).isSome = true := by unfold findB; rw [c1_bod]; exact hfb
+      obtain ⟨b1, b2, b3, _, b5⟩ := buffer_spec c1 sid len hu1 hp1
+      have hheld2 := b5 hfb1
+      have hi2 : InflowInv (buffer c1 sid len).inflow := by rw [b2, c1_in]; exact t1
+      have hpr : padRefund (buffer c1 sid len) sid (L - len) = (c', r) := hacc
+      have hnp2 : Rx.panic ∉ (padRefund (buffer c1 sid len) sid (L - len)).2 := by rw [hpr]; exact hnp
+      obtain ⟨p1, p2, p3, p4⟩ := padRefund_spec (buffer c1 sid len) sid (L - len) hi2 b1 hnp2
+      rw [hpr] at p1 p2 p3 p4
+      simp only at p1 p2 p3 p4
+      refine ⟨p1, p2, ?_⟩
+      rw [p3, p4, hheld2, c1_held]
+      have : cred (buffer c1 sid len) = cred c - L := by
+        unfold cred; rw [b2, c1_in, t2, t3]; omega
+      rw [this]
+      have : ((L - len : Nat) : Int) = (L : Int) - len := by omega
+      rw [this]; omega
+    · have : (takeInflows c.inflow s.inflow L).2.2 = false := by simpa using hok
+      simp [this] at hacc
+  · simp only [hL0, if_false, Option.some.injEq, Prod.mk.injEq] at hacc
+    obtain ⟨rfl, _⟩ := hacc
+    exact Keeps.refl c hi hu
+
+open H2Rx in
+theorem endStream_keeps (c : RConn) (sid : Nat) (hi : InflowInv c.inflow) (hu : BUniq c) : Keeps c (endStream c sid) := by
+  unfold endStream markEnded markHalfClosed
+  -- first the stream's state, then the body's `ended` flag: neither touches counters, ids or buffered bytes
+  have step1 : ∀ (x : RConn), InflowInv x.inflow → BUniq x →
+      Keeps x (match findS x sid with | some s => setS x { s with state := RxState.halfClosedRemote } | none => x) := by
+    intro x hix hux
+    cases findS x sid with
+    | none => exact Keeps.refl x hix hux
+    | some s => exact keeps_of_same x _ hix hux rfl rfl (held_setS x _)
+  have step2 : ∀ (x : RConn), InflowInv x.inflow → BUniq x →
+      Keeps x (match findB x sid with | some b => setB x { b with ended := true } | none => x) := by
+    intro x hix hux
+    cases hb : findB x sid with
+    | none => exact Keeps.refl x hix hux
+    | some b =>
+      simp only
+      have hbid := findB_id x sid b hb
+      have hf : findB x ({ b with ended := true } : Body).id = some b := by show findB x b.id = some b; rw [hbid]; exact hb
+      have hh := held_setB x b { b with ended := true } hux hf
+      refine ⟨hix, by unfold BUniq; rw [bodies_ids_setB]; exact hux, ?_⟩
+      rw [hh]
+      have : cred (setB x { b with ended := true }) = cred x := rfl
+      rw [this]
+      have e0 : (if present x ({ b with ended := true } : Body).id = true
+          then ((({ b with ended := true } : Body).buffered : Nat) : Int) - (b.buffered : Int) else 0) = 0 := by
+        split
+        · show ((b.buffered : Nat) : Int) - b.buffered = 0; omega
+        · rfl
+      rw [e0]; omega
+  have k1 := step1 c hi hu
+  exact k1.trans (step2 _ k1.inflow k1.uniq)
+
+open H2Rx in
+theorem noteRead_keeps (c : RConn) (b : Body) (sid k : Nat) (hi : InflowInv c.inflow) (hu : BUniq c)
+    (hfb : findB c sid = some b) (hk : k ≤ b.buffered) (hnp : Rx.panic ∉ (noteRead c b sid k).2) :
+    Keeps c (noteRead c b sid k).1 := by
+  unfold noteRead at hnp ⊢
+  simp only at hnp ⊢
+  have hbid := findB_id c sid b hfb
+  have hf : findB c ({ b with buffered := b.buffered - k } : Body).id = some b := by
+    show findB c b.id = some b; rw [hbid]; exact hfb
+  have hh := held_setB c b { b with buffered := b.buffered - k } hu hf
+  generalize hc1 : setB c { b with buffered := b.buffered - k } = c1 at hnp hh ⊢
+  have c1_in : c1.inflow = c.inflow := by rw [← hc1]; rfl
+  have hu1 : BUniq c1 := by unfold BUniq; rw [← hc1, bodies_ids_setB]; exact hu
+  have hnp1 : Rx.panic ∉ (connRefund c1 k).2 := fun h => hnp (by simp [h])
+  obtain ⟨r1, r2, r3, r4, _⟩ := connRefund_spec c1 k (by rw [c1_in]; exact hi) hnp1
+  have hh1 : held (connRefund c1 k).1 = held c1 := by
+    unfold held; rw [r4]; apply heldOf_congr; intro s; unfold present findS; rw [r3]
+  have hu2 : BUniq (connRefund c1 k).1 := by unfold BUniq; rw [r4]; exact hu1
+  have hled : cred (connRefund c1 k).1 + held (connRefund c1 k).1 ≥ cred c + held c := by
+    rw [r2, hh1, hh]
+    have : cred c1 = cred c := by unfold cred; rw [c1_in]
+    rw [this]
+    split
+    · show cred c + k + (held c + (((b.buffered - k : Nat) : Int) - b.buffered)) ≥ _; omega
+    · omega
+  -- the optional stream-level refund changes neither the connection counters nor what is held
+  have fin : ∀ (x : RConn × List Rx), x.1.inflow = (connRefund c1 k).1.inflow → x.1.bodies = (connRefund c1 k).1.bodies →
+      held x.1 = held (connRefund c1 k).1 → Keeps c x.1 := by
+    intro x e1 e2 e3
+    exact ⟨by rw [e1]; exact r1, by unfold BUniq; rw [e2]; exact hu2, by unfold cred at *; rw [e1, e3]; exact hled⟩
+  cases hs : findS (connRefund c1 k).1 sid with
+  | none => exact fin ((connRefund c1 k).1, []) rfl rfl rfl
+  | some st =>
+    simp only
+    split
+    · obtain ⟨q1, q2, q3, _⟩ := streamRefund_spec (connRefund c1 k).1 st k
+      exact fin _ q1 q2 q3
+    · exact fin ((connRefund c1 k).1, []) rfl rfl rfl
+
+open H2Rx in
+/-- ONE EVENT (client frame or handler action) keeps the ledger: provided no `inflow.add` panic occurred (credit
+beyond 2^31-1, which the over-refund D14 could only reach after gigabytes) and request streams are opened with
+fresh ids, credit + held bytes never shrink -/
+theorem rx_step_keeps (c : RConn) (e : RxEv) (hi : InflowInv c.inflow) (hu : BUniq c)
+    (hfresh : ∀ sid cl, e = .open_ sid cl → sid ∉ c.bodies.map (·.id))
+    (hsize : ∀ sid len pad padded es, e = .data sid len pad padded es → len + pad + 1 ≤ 16777215 + 256)
+    (hbody : ∀ sid s, findS c sid = some s → (findB c sid).isSome = true)
+    (hnp : Rx.panic ∉ (step c e).2) : Keeps c (step c e).1 := by
+  unfold step at hnp ⊢
+  by_cases hd : c.dead = true
+  · simp only [hd, if_true]; exact Keeps.refl c hi hu
+  · simp only [hd, Bool.false_eq_true, if_false] at hnp ⊢
+    cases e with
+    | open_ sid cl =>
+      simp only
+      have hf := hfresh sid cl rfl
+      refine ⟨hi, ?_, ?_⟩
+      · unfold BUniq
+        show ((c.bodies ++ [({ id := sid } : Body)]).map (·.id)).Nodup
+        simp only [List.map_append, List.map_cons, List.map_nil]
+        apply List.nodup_append.mpr
+        refine ⟨hu, by simp, ?_⟩
+        intro a ha b hb
+        simp at hb; subst hb
+        exact fun e => hf (e ▸ ha)
+      · -- the new body holds nothing
+        have hin : (openStream c sid cl).inflow = c.inflow := rfl
+        have hbo : (openStream c sid cl).bodies = c.bodies ++ [{ id := sid }] := rfl
+        have key : ∀ (l : List Body) (c' : RConn), (∀ x, present c x = true → present c' x = true) →
+            heldOf c' l ≥ heldOf c l := by
+          intro l c' hmono
+          induction l with
+          | nil => simp [heldOf]
+          | cons b r ih =>
+            simp only [heldOf]
+            by_cases hp : present c b.id = true
+            · simp only [hp, hmono b.id hp, if_true]; omega
+            · simp only [hp, Bool.false_eq_true, if_false]
+              split <;> omega
+        have happ : ∀ (c' : RConn) (l1 l2 : List Body), heldOf c' (l1 ++ l2) = heldOf c' l1 + heldOf c' l2 := by
+          intro c' l1 l2
+          induction l1 with
+          | nil => simp [heldOf]
+          | cons b r ih => simp only [List.cons_append, heldOf, ih]; omega
+        have hmono : ∀ x, present c x = true → present (openStream c sid cl) x = true := by
+          intro x hx
+          unfold present findS at hx ⊢
+          show (List.find? (fun s => s.id == x) (c.streams ++ _)).isSome = true
+          simp only [List.find?_append]
+          cases h : List.find? (fun s => s.id == x) c.streams with
+          | none => rw [h] at hx; cases hx
+          | some s => simp
+        have h0 : heldOf (openStream c sid cl) [({ id := sid } : Body)] = 0 := by simp [heldOf]
+        have hk := key c.bodies (openStream c sid cl) hmono
+        show cred (openStream c sid cl) + held (openStream c sid cl) ≥ cred c + held c
+        have hc : cred (openStream c sid cl) = cred c := rfl
+        unfold held
+        rw [hc, hbo, happ, h0]
+        omega
+    | data sid len pad padded es =>
+      simp only at hnp ⊢
+      have hsz := hsize sid len pad padded es rfl
+      have hL : ((len + (if padded = true then pad + 1 else 0) : Nat) : Int) ≤ 4294967295 := by
+        split <;> omega
+      have hafterErr : ∀ code, ∀ x, InflowInv x.inflow → BUniq x → Rx.panic ∉ (streamErr x sid code).2 →
+          Keeps x (streamErr x sid code).1 := fun code x h1 h2 h3 => streamErr_keeps x sid code h1 h2 h3
+      cases hs : findS c sid with
+      | none =>
+        rw [hs] at hnp
+        simp only at hnp ⊢
+        exact chargeReturn_keeps c sid _ _ hi hu hL (fun x h1 h2 _ => Keeps.refl x h1 h2) hnp
+      | some s =>
+        rw [hs] at hnp
+        simp only at hnp ⊢
+        by_cases hst : s.state ≠ RxState.open_
+        · rw [if_pos hst] at hnp ⊢
+          exact chargeReturn_keeps c sid _ _ hi hu hL (hafterErr _) hnp
+        · rw [if_neg hst] at hnp ⊢
+          by_cases hdl : overDeclared s len = true
+          · rw [if_pos hdl] at hnp ⊢
+            exact chargeReturn_keeps c sid _ _ hi hu hL (hafterErr _) hnp
+          · rw [if_neg hdl] at hnp ⊢
+            cases hacc : acceptData c s sid len (len + (if padded = true then pad + 1 else 0)) with
+            | none =>
+              rw [hacc] at hnp
+              simp only at hnp ⊢
+              exact streamErr_keeps c sid _ hi hu hnp
+            | some v =>
+              obtain ⟨c', r⟩ := v
+              rw [hacc] at hnp
+              simp only at hnp ⊢
+              have hnpr : Rx.panic ∉ r := by
+                cases es <;> simpa using hnp
+              have k1 := acceptData_keeps c s sid len _ hi hu hs (hbody sid s hs) hL (by omega) c' r hacc hnpr
+              cases es with
+              | true => simp only [if_true]; exact k1.trans (endStream_keeps c' sid k1.inflow k1.uniq)
+              | false => simpa using k1
+    | rst sid =>
+      simp only at hnp ⊢
+      cases hs : findS c sid with
+      | none => simp only; exact Keeps.refl c hi hu
+      | some s =>
+        rw [hs] at hnp
+        simp only at hnp ⊢
+        exact closeStream_keeps c sid hi hu hnp
+    | hread sid n =>
+      simp only at hnp ⊢
+      cases hb : findB c sid with
+      | none => simp only; exact Keeps.refl c hi hu
+      | some b =>
+        rw [hb] at hnp
+        simp only at hnp ⊢
+        split
+        · exact Keeps.refl c hi hu
+        · rename_i hret
+          simp only [hret] at hnp
+          split
+          · split <;> exact Keeps.refl c hi hu
+          · rename_i hb0
+            simp only [hb0, if_false] at hnp
+            exact noteRead_keeps c b sid _ hi hu hb (Nat.min_le_right _ _) hnp
+    | hret sid =>
+      simp only at hnp ⊢
+      cases hb : findB c sid with
+      | none => simp only; exact Keeps.refl c hi hu
+      | some b =>
+        rw [hb] at hnp
+        simp only at hnp ⊢
+        split
+        · exact Keeps.refl c hi hu
+        · rename_i hret
+          simp only [hret] at hnp
+          -- marking the body as returned changes nothing in the ledger
+          have hbid := findB_id c sid b hb
+          have hf : findB c ({ b with returned := true } : Body).id = some b := by show findB c b.id = some b; rw [hbid]; exact hb
+          have hh := held_setB c b { b with returned := true } hu hf
+          have e0 : (if present c ({ b with returned := true } : Body).id = true
+              then ((({ b with returned := true } : Body).buffered : Nat) : Int) - (b.buffered : Int) else 0) = 0 := by
+            split
+            · show ((b.buffered : Nat) : Int) - b.buffered = 0; omega
+            · rfl
+          rw [e0] at hh
+          have k0 : Keeps c (setB c { b with returned := true }) :=
+            ⟨hi, by unfold BUniq; rw [bodies_ids_setB]; exact hu, by
+              have : cred (setB c { b with returned := true }) = cred c := rfl
+              rw [this, hh]; omega⟩
+          generalize setB c { b with returned := true } = c1 at hnp k0 ⊢
+          cases hs : findS c1 sid with
+          | none => simp only; exact k0
+          | some s =>
+            rw [hs] at hnp
+            simp only at hnp ⊢
+            split
+            · rename_i hop
+              simp only [hop, if_true] at hnp
+              have : Rx.panic ∉ (closeStream c1 sid).2 := fun h => hnp (by simp [h])
+              exact k0.trans (closeStream_keeps c1 sid k0.inflow k0.uniq this)
+            · rename_i hop
+              simp only [hop, if_false] at hnp
+              exact k0.trans (closeStream_keeps c1 sid k0.inflow k0.uniq hnp)
+
+open H2Rx in
+/-- `c'` has the same body ids as `c` and no stream that `c` did not have -/
+def Sub (c c' : RConn) : Prop :=
+  c'.bodies.map (·.id) = c.bodies.map (·.id) ∧ ∀ x, present c' x = true → present c x = true
+
+open H2Rx in
+theorem Sub.refl (c : RConn) : Sub c c := ⟨rfl, fun _ h => h⟩
+
+open H2Rx in
+theorem Sub.trans {a b c : RConn} (h1 : Sub a b) (h2 : Sub b c) : Sub a c :=
+  ⟨h2.1.trans h1.1, fun x h => h1.2 x (h2.2 x h)⟩
+
+open H2Rx in
+theorem sub_connRefund (c : RConn) (n : Nat) : Sub c (connRefund c n).1 := by
+  unfold connRefund; split <;> exact Sub.refl c
+
+open H2Rx in
+theorem sub_setS (c : RConn) (s : RStream) : Sub c (setS c s) := ⟨rfl, fun x h => by rw [present_setS] at h; exact h⟩
+
+open H2Rx in
+theorem sub_setB (c : RConn) (b : Body) : Sub c (setB c b) := ⟨bodies_ids_setB c b, fun _ h => h⟩
+
+open H2Rx in
+theorem sub_streamRefund (c : RConn) (s : RStream) (n : Nat) : Sub c (streamRefund c s n).1 := by
+  unfold streamRefund; split
+  · exact sub_setS c _
+  · exact Sub.refl c
+
+open H2Rx in
+theorem sub_closeStream (c : RConn) (sid : Nat) : Sub c (closeStream c sid).1 := by
+  unfold closeStream
+  split
+  · exact Sub.refl c
+  · have hd : Sub c (dropS c sid) := ⟨rfl, fun x h => by rw [present_dropS] at h; simp at h; exact h.1⟩
+    simp only
+    cases findB (dropS c sid) sid with
+    | none => exact hd
+    | some b => exact (hd.trans (sub_connRefund _ _)).trans (sub_setB _ _)
+
+open H2Rx in
+theorem sub_streamErr (c : RConn) (sid code : Nat) : Sub c (streamErr c sid code).1 := sub_closeStream c sid
+
+open H2Rx in
+theorem sub_chargeReturn (c : RConn) (sid L : Nat) (after : RConn → RConn × List Rx) (ha : ∀ x, Sub x (after x).1) :
+    Sub c (chargeReturn c sid L after).1 := by
+  unfold chargeReturn
+  split
+  · exact sub_streamErr c sid _
+  · exact (Sub.trans (c := (connRefund { c with inflow := (c.inflow.take L).1 } L).1) ⟨rfl, fun _ h => h⟩ (sub_connRefund _ _)).trans (ha _)
+
+open H2Rx in
+theorem sub_buffer (c : RConn) (sid len : Nat) : Sub c (buffer c sid len) := by
+  unfold buffer; split
+  · exact sub_setB c _
+  · exact Sub.refl c
+
+open H2Rx in
+theorem sub_padRefund (c : RConn) (sid n : Nat) : Sub c (padRefund c sid n).1 := by
+  unfold padRefund
+  simp only
+  split
+  · exact (sub_connRefund c n).trans (sub_streamRefund _ _ _)
+  · exact sub_connRefund c n
+
+open H2Rx in
+theorem sub_acceptData (c : RConn) (s : RStream) (sid len L : Nat) (c' : RConn) (r : List Rx)
+    (h : acceptData c s sid len L = some (c', r)) : Sub c c' := by
+  unfold acceptData at h
+  split at h
+  · split at h
+    · cases h
+    · simp only [Option.some.injEq] at h
+      obtain ⟨c1, hh, hc1⟩ : ∃ c1, padRefund (buffer c1 sid len) sid (L - len) = (c', r) ∧ Sub c c1 := by
+        refine ⟨_, h, rfl, fun x hx => ?_⟩
+        rw [present_setS] at hx; exact hx
+      have hc' : c' = (padRefund (buffer c1 sid len) sid (L - len)).1 := by rw [hh]
+      rw [hc']
+      exact (hc1.trans (sub_buffer _ _ _)).trans (sub_padRefund _ _ _)
+  · simp only [Option.some.injEq, Prod.mk.injEq] at h
+    rw [← h.1]; exact Sub.refl c
+
+open H2Rx in
+theorem sub_endStream (c : RConn) (sid : Nat) : Sub c (endStream c sid) := by
+  have a : Sub c (markHalfClosed c sid) := by
+    unfold markHalfClosed
+    split
+    · exact sub_setS c _
+    · exact Sub.refl c
+  have b : ∀ x, Sub x (markEnded x sid) := by
+    intro x
+    unfold markEnded
+    split
+    · exact sub_setB _ _
+    · exact Sub.refl _
+  exact a.trans (b _)
+
+open H2Rx in
+theorem sub_noteRead (c : RConn) (b : Body) (sid k : Nat) : Sub c (noteRead c b sid k).1 := by
+  unfold noteRead
+  simp only
+  have a : Sub c (connRefund (setB c { b with buffered := b.buffered - k }) k).1 :=
+    (sub_setB c { b with buffered := b.buffered - k }).trans (sub_connRefund _ k)
+  refine a.trans ?_
+  split
+  · split
+    · exact sub_streamRefund _ _ _
+    · exact Sub.refl _
+  · exact Sub.refl _
+
+open H2Rx in
+/-- every stream of the map has a request body for its handler -/
+def HasBodies (c : RConn) : Prop := ∀ sid, present c sid = true → sid ∈ c.bodies.map (·.id)
+
+open H2Rx in
+theorem HasBodies.sub {c c' : RConn} (h : HasBodies c) (s : Sub c c') : HasBodies c' :=
+  fun sid hp => by rw [s.1]; exact h sid (s.2 sid hp)
+
+open H2Rx in
+theorem rx_step_bodies (c : RConn) (e : RxEv) (h : HasBodies c) : HasBodies (step c e).1 := by
+  unfold step
+  split
+  · exact h
+  · cases e with
+    | open_ sid cl =>
+      simp only
+      intro x hx
+      show x ∈ (c.bodies ++ [({ id := sid } : Body)]).map (·.id)
+      simp only [List.map_append, List.map_cons, List.map_nil, List.mem_append, List.mem_singleton]
+      by_cases hp : present c x = true
+      · left; exact h x hp
+      · right
+        unfold present findS at hx hp
+        have hx' : (List.find? (fun s => s.id == x) (c.streams ++ [{ id := sid, inflow := { avail := 1048576 }, declLen := cl }])).isSome = true := hx
+        simp only [List.find?_append] at hx'
+        cases hf : List.find? (fun s => s.id == x) c.streams with
+        | some s => rw [hf] at hp; simp at hp
+        | none =>
+          rw [hf] at hx'
+          by_cases e : sid = x
+          · exact e.symm
+          · have : (sid == x) = false := by simpa using e
+            simp [List.find?_cons, this] at hx'
+    | data sid len pad padded es =>
+      simp only
+      split
+      · exact h.sub (sub_chargeReturn c sid _ _ (fun x => Sub.refl x))
+      · split
+        · exact h.sub (sub_chargeReturn c sid _ _ (fun x => sub_streamErr x sid _))
+        · split
+          · exact h.sub (sub_chargeReturn c sid _ _ (fun x => sub_streamErr x sid _))
+          · split
+            · exact h.sub (sub_streamErr c sid _)
+            · rename_i c' r hacc
+              have s1 := sub_acceptData c _ sid len _ c' r hacc
+              split
+              · exact h.sub (s1.trans (sub_endStream c' sid))
+              · exact h.sub s1
+    | rst sid =>
+      simp only
+      split
+      · exact h.sub (sub_closeStream c sid)
+      · exact h
+    | hread sid n =>
+      simp only
+      split
+      · exact h
+      · split
+        · exact h
+        · split
+          · split <;> exact h
+          · exact h.sub (sub_noteRead c _ sid _)
+    | hret sid =>
+      simp only
+      split
+      · exact h
+      · split
+        · exact h
+        · have s0 := sub_setB c { (‹Body›) with returned := true }
+          split
+          · exact h.sub s0
+          · split
+            · exact h.sub (s0.trans (sub_closeStream _ sid))
+            · exact h.sub (s0.trans (sub_closeStream _ sid))
+
+open H2Rx in
+/-- an event the scheduler interface and the framer can deliver in state `c`: a new request stream has a fresh id,
+a DATA frame is no larger than a frame can be -/
+def RxOk (c : RConn) : RxEv → Prop
+  | .open_ sid _ => sid ∉ c.bodies.map (·.id)
+  | .data _ len pad _ _ => len + pad + 1 ≤ 16777215 + 256
+  | _ => True
+
+open H2Rx in
+/-- the connection after a sequence of events, `none` as soon as an `inflow.add` panicked or an event was not `RxOk` -/
+def rxRun : RConn → List RxEv → Option RConn
+  | c, [] => some c
+  | c, e :: r => if Rx.panic ∈ (step c e).2 then none else rxRun (step c e).1 r
+
+open H2Rx in
+/-- SERVER RECEIVE SIDE, NO CREDIT LOST, over unbounded histories: for every sequence of client frames (DATA of any
+size and padding, on open, half-closed, closed streams, beyond windows or Content-Length, resets) and handler
+actions (reads of any size at any time, early returns) on any number of streams, the connection-level credit the
+server has handed back or batched (`avail + unsent`) plus the bytes it still buffers for open streams is at least
+the initial 1 MiB, and the batched part stays below 4096 bytes: un-returned credit is bounded by what is buffered
+plus 4 KiB, however much traffic has passed. (One-sided on purpose: finding D14 is an OVER-refund.) -/
+theorem rx_no_credit_lost (evs : List RxEv) : ∀ (c c' : RConn), RxInv c → HasBodies c →
+    (∀ (pre : List RxEv) (e : RxEv) (post : List RxEv) (cm : RConn), evs = pre ++ e :: post → rxRun c pre = some cm → RxOk cm e) →
+    rxRun c evs = some c' →
+    cred c' + held c' ≥ 1048576 ∧ 0 ≤ c'.inflow.unsent ∧ c'.inflow.unsent < 4096 := by
+  induction evs with
+  | nil =>
+    intro c c' h _ _ hr
+    simp only [rxRun, Option.some.injEq] at hr
+    subst hr
+    exact ⟨h.ledger, h.inflow.2.1, h.inflow.2.2.1⟩
+  | cons e r ih =>
+    intro c c' h hb hok hr
+    simp only [rxRun] at hr
+    split at hr
+    · cases hr
+    · rename_i hnp
+      have hoke : RxOk c e := hok [] e r c rfl rfl
+      have k := rx_step_keeps c e h.inflow h.uniq
+        (by intro sid cl he; subst he; exact hoke)
+        (by intro sid len pad padded es he; subst he; exact hoke)
+        (by
+          intro sid s hs
+          have := hb sid (present_of_findS hs)
+          unfold findB
+          cases hf : List.find? (fun x => x.id == sid) c.bodies with
+          | some b => rfl
+          | none =>
+            rw [List.find?_eq_none] at hf
+            obtain ⟨b, hbm, hbe⟩ := List.mem_map.mp this
+            exact absurd (by simp [hbe]) (hf b hbm))
+        hnp
+      have h' : RxInv (step c e).1 := ⟨k.inflow, k.uniq, by have := k.ledger; have := h.ledger; omega⟩
+      apply ih (step c e).1 c' h' (rx_step_bodies c e hb) ?_ hr
+      intro pre e' post cm hsplit hrun
+      apply hok (e :: pre) e' post cm (by rw [hsplit]; rfl)
+      simp only [rxRun, hnp, if_false]
+      exact hrun
+
+open H2Rx in
+/-- the premises are satisfiable by a non-trivial history: 3000 bytes with padding on stream 1, partly read, a
+second stream reset with bytes still buffered, a late read after the reset, an early return -/
+example : (rxRun {} [.open_ 1 none, .data 1 3000 200 true false, .hread 1 1000, .open_ 3 (some 5000), .data 3 5000 0 false false,
+      .rst 3, .hread 3 100000, .data 1 100 0 false true, .hread 1 100000, .hret 1, .hret 3]).map
+    (fun c => (c.inflow.avail + c.inflow.unsent, held c)) = some (1053576, 0) := by decide
+
+open H2Rx in
+/-- the fresh connection satisfies the premises of `rx_no_credit_lost` -/
+theorem rx_init : RxInv ({} : RConn) ∧ HasBodies ({} : RConn) := by
+  refine ⟨⟨⟨by decide, by decide, by decide, by decide⟩, by unfold BUniq; simp, by decide⟩, ?_⟩
+  intro sid h; simp [present, findS] at h
 
 end Fp.C12
